@@ -4,6 +4,16 @@ import os, sys, json, importlib, glob, subprocess
 ROOT = os.path.dirname(os.path.dirname(os.path.abspath(__file__)))
 sys.path.insert(0, os.path.join(ROOT, "tools")); sys.path.insert(0, os.path.join(ROOT, "checks"))
 ids = [json.loads(l)["id"] for l in open(os.path.join(ROOT, "properties.jsonl"))]
+import srctie_texts
+
+
+def has_tie(pid):
+    """the tie text is only claimed while the theorems are really in the properties file"""
+    try:
+        t = open(os.path.join(ROOT, "coq", "Properties_%s.v" % pid)).read()
+    except OSError:
+        return False
+    return pid in srctie_texts.SRC_TIE and ("gen.Gen_Loop" in t or "gen.Gen_Heap" in t)
 NOT_APPLICABLE = {}  # property -> reason (kept current by hand; see DESIGN.md)
 PENDING = "check not built yet in this development (time); the design for it is in DESIGN.md section 6 -- no claim is made"
 checks = []
@@ -21,9 +31,9 @@ for pid in ids:
             "evidence_file": "/verif/evidence/%s.json" % pid,
             "replay_cmd_template": "bin/check %s --replay {path}" % pid,
             "engine": "coq-model+correspondence",
-            "level_claimed": {"category": "proof", "text": P.LEVEL_TEXT, "design_ref": "DESIGN.md section 6, %s" % pid},
+            "level_claimed": {"category": "proof", "text": P.LEVEL_TEXT + (srctie_texts.SRC_TIE[pid] if has_tie(pid) else ""), "design_ref": "DESIGN.md section 6, %s" % pid},
             "level_note": P.LEVEL_NOTE,
-            "technique": P.TECHNIQUE,
+            "technique": P.TECHNIQUE + (srctie_texts.TECH if has_tie(pid) else ""),
         })
     else:
         na.append({"property_id": pid, "reason": NOT_APPLICABLE.get(pid, PENDING)})
